@@ -109,12 +109,10 @@ Lemma DueInv_poll s c q ct topics now upd : DueInv s -> DueInv (fst (poll s c q 
 Proof.
   intros HI. apply (DueInv_pre_poll s q now upd) in HI. rewrite poll_unfold. cbv zeta.
   set (s1 := pre_poll s q now upd) in *. clearbody s1. destruct HI as [H1 H2 H3]. destruct ct.
-  - destruct (take_first (in_queue q) (simple s1)) as [[x rest]|] eqn:E; [|constructor; assumption].
-    destruct (take_first_Forall _ _ _ _ _ E H1) as [Hx Hr].
-    destruct (msg_overdue x now); [|destruct (negb (topic_ok topics x))]; constructor;
-      unfold set_processing; cbn [fst simple delayed processing clk]; auto.
-    + apply Forall_app. split; [exact Hr | constructor; [exact Hx | constructor]].
-    + apply Forall_app. split; [exact H3 | constructor; [exact Hx | constructor]].
+  - destruct (scan q topics now (simple s1)) as [[d f] k] eqn:E.
+    destruct (scan_Forall _ _ _ _ _ _ _ _ E H1) as (_ & Hk & Hf).
+    destruct f as [x|]; constructor; cbn [fst simple delayed processing clk]; auto.
+    apply Forall_app. split; [exact H3 | constructor; [exact Hf | constructor]].
   - destruct (min_key q (delayed s1)) as [k|]; [|constructor; assumption].
     destruct (d_pop q k (delayed s1)) as [[x d']|] eqn:E; [|constructor; assumption].
     destruct (d_pop_ok _ _ _ _ _ E H2) as [Hx Hd]. constructor; cbn [fst simple delayed processing clk]; auto.
@@ -196,9 +194,9 @@ Proof.
     destruct (due_split q now (delayed s)) as [mv keep].
     destruct (fold_append_fields mv (mkS (simple s) keep (dead s) (processing s) (gone s) (stamp s) (clk s))) as (_ & _ & C & _).
     rewrite C. cbn [clk]. lia. }
-  destruct (take_first (in_queue q) (simple (pre_poll s q now upd))) as [[x rest]|] eqn:E; [|discriminate].
-  destruct (take_first_Forall _ _ _ _ _ E (di_simple _ HI)) as [Hx _].
-  destruct (msg_overdue x now); [discriminate|]. destruct (negb (topic_ok topics x)); [discriminate|].
+  destruct (scan q topics now (simple (pre_poll s q now upd))) as [[dd f] k] eqn:E.
+  destruct (scan_Forall _ _ _ _ _ _ _ _ E (di_simple _ HI)) as (_ & _ & Hx).
+  destruct f as [x|]; [|discriminate].
   injection H as _ Hm. subst x. unfold ok_due in Hx. rewrite Hd, Hclk in Hx. exact Hx.
 Qed.
 
@@ -237,12 +235,10 @@ Definition matchP (q : Z) (F : list Z) (m : msg) : bool := in_queue q m && topic
 Fixpoint sorted (l : list Z) : Prop :=
   match l with [] => True | x :: r => Forall (fun y => x < y) r /\ sorted r end.
 
-Definition FifoInv (q : Z) (F : list Z) (s : mstate) : Prop :=
-  sorted (map m_stamp (filter (matchP q F) (simple s))) /\ Forall (fun m => m_stamp m < stamp s) (simple s).
-
-(* one consumer on the queue: every normal poll on q uses the filter F *)
-Definition fifo_ok (q : Z) (F : list Z) (o : op) : Prop :=
-  match o with OPoll _ q' Normal F' _ _ => q' = q -> F' = F | _ => True end.
+(* since the full-turn poll nothing is ever rotated: the waiting list is ALWAYS in arrival order, for every queue, every
+   number of consumers and every mix of topic filters *)
+Definition FifoInv (s : mstate) : Prop :=
+  sorted (map m_stamp (simple s)) /\ Forall (fun m => m_stamp m < stamp s) (simple s).
 
 Lemma sorted_app_one l x : sorted l -> Forall (fun y => y < x) l -> sorted (l ++ [x]).
 Proof.
@@ -250,41 +246,46 @@ Proof.
   destruct Hs as [Ha Hs]. inversion Hb; subst. split; [apply Forall_app; split; [exact Ha | constructor; [lia|constructor]] | apply IH; assumption].
 Qed.
 
-Lemma FifoInv_append q F s m : FifoInv q F s -> FifoInv q F (append_simple s m).
+Lemma FifoInv_append s m : FifoInv s -> FifoInv (append_simple s m).
 Proof.
   intros [Hs Hb]. unfold FifoInv, append_simple. cbn [simple stamp]. split.
-  - rewrite filter_app, map_app. cbn [filter]. destruct (matchP q F (with_stamp m (stamp s))); [|rewrite app_nil_r; exact Hs].
-    cbn [map m_stamp with_stamp]. apply sorted_app_one; [exact Hs|].
-    rewrite Forall_map. rewrite Forall_forall in *. intros y Hy. apply filter_In in Hy. apply Hb. tauto.
+  - rewrite map_app. cbn [map m_stamp with_stamp]. apply sorted_app_one; [exact Hs|]. rewrite Forall_map. exact Hb.
   - apply Forall_app. split; [eapply Forall_impl; [|exact Hb]; intros; simpl in *; lia | constructor; [simpl; lia | constructor]].
 Qed.
 
-Lemma FifoInv_fold q F mv : forall s, FifoInv q F s -> FifoInv q F (fold_left append_simple mv s).
+Lemma FifoInv_fold mv : forall s, FifoInv s -> FifoInv (fold_left append_simple mv s).
 Proof. induction mv as [|m mv IH]; intros s H; simpl; [exact H | apply IH, FifoInv_append, H]. Qed.
 
-(* removing one element keeps a sorted list sorted *)
-Lemma sorted_remove {A} (f : A -> Z) (P Q : A -> bool) l x r :
-  take_first P l = Some (x, r) -> sorted (map f (filter Q l)) -> sorted (map f (filter Q r)).
+(* what remains after a turn is still in arrival order *)
+Lemma scan_sorted q topics now l : sorted (map m_stamp l) -> sorted (map m_stamp (snd (scan q topics now l))).
 Proof.
-  revert x r. induction l as [|z l IH]; simpl; intros x r H Hs; [discriminate|].
-  destruct (P z).
-  - inversion H; subst. destruct (Q x); [simpl in Hs; tauto | exact Hs].
-  - destruct (take_first P l) as [[w r']|] eqn:E; [|discriminate]. inversion H; subst. simpl.
-    destruct (Q z); simpl in *.
-    + destruct Hs as [Hz Hs]. split; [|eapply IH; eauto].
-      rewrite Forall_map in *. rewrite Forall_forall in *. intros y Hy. apply Hz.
-      apply filter_In in Hy. apply filter_In. split; [eapply take_first_rest_subset; eauto; tauto | tauto].
-    + eapply IH; eauto.
+  induction l as [|m r IH]; cbn [scan]; [auto|]. intros [Hm Hr]. specialize (IH Hr).
+  pose proof (scan_rest_subset q topics now r) as Hsub.
+  destruct (scan q topics now r) as [[d f] k]. cbn [snd] in *.
+  assert (Hk : Forall (fun y => m_stamp m < y) (map m_stamp k)).
+  { rewrite Forall_map in *. rewrite Forall_forall in *. intros y Hy. apply Hm, Hsub, Hy. }
+  destruct (in_queue q m); [destruct (msg_overdue m now); [|destruct (topic_ok topics m)]|]; cbn [snd map sorted]; auto.
 Qed.
 
-Lemma take_first_bound {A} (P : A -> bool) (Q : A -> Prop) l x r : take_first P l = Some (x, r) -> Forall Q l -> Forall Q r /\ Q x.
-Proof. intros H HF. destruct (take_first_Forall P Q l x r H HF). auto. Qed.
+(* and the message found arrived before every message of the consumer's queue and topics which remains *)
+Lemma scan_fifo q topics now l d m k :
+  scan q topics now l = (d, Some m, k) -> sorted (map m_stamp l) ->
+  Forall (fun m' => matchP q topics m' = true -> m_stamp m < m_stamp m') k.
+Proof.
+  revert d k. induction l as [|x r IH]; cbn [scan]; intros d k H Hs; [discriminate|].
+  destruct Hs as [Hx Hr]. destruct (scan q topics now r) as [[d0 f0] k0].
+  destruct (in_queue q x) eqn:Eq; [destruct (msg_overdue x now); [|destruct (topic_ok topics x) eqn:Et]|]; inversion H; subst.
+  - eapply IH; eauto.
+  - rewrite Forall_map in Hx. eapply Forall_impl; [|exact Hx]. cbv beta. auto.
+  - constructor; [unfold matchP; rewrite Eq, Et; discriminate | eapply IH; eauto].
+  - constructor; [unfold matchP; rewrite Eq; discriminate | eapply IH; eauto].
+Qed.
 
-Lemma FifoInv_state q F s s' :
-  simple s' = simple s -> stamp s' = stamp s -> FifoInv q F s -> FifoInv q F s'.
+Lemma FifoInv_state s s' :
+  simple s' = simple s -> stamp s' = stamp s -> FifoInv s -> FifoInv s'.
 Proof. intros H1 H2 [A B]. unfold FifoInv. rewrite H1, H2. auto. Qed.
 
-Lemma FifoInv_pre_poll q F s q' now upd : FifoInv q F s -> FifoInv q F (pre_poll s q' now upd).
+Lemma FifoInv_pre_poll s q' now upd : FifoInv s -> FifoInv (pre_poll s q' now upd).
 Proof.
   intros H. unfold pre_poll. destruct upd.
   - eapply FifoInv_state; [reflexivity | reflexivity |]. unfold update_delayed.
@@ -297,26 +298,26 @@ Lemma put_back_simple_cases s h :
   put_back s h = append_simple s (hd_msg h) \/ (simple (put_back s h) = simple s /\ stamp (put_back s h) = stamp s).
 Proof. unfold put_back. destruct (hd_origin h); auto. Qed.
 
-Lemma FifoInv_put_back q F s h : FifoInv q F s -> FifoInv q F (put_back s h).
+Lemma FifoInv_put_back s h : FifoInv s -> FifoInv (put_back s h).
 Proof.
   intros H. destruct (put_back_simple_cases s h) as [->|[A B]]; [apply FifoInv_append; exact H | eapply FifoInv_state; eauto].
 Qed.
 
-Lemma FifoInv_finish q F c q' order : forall s, FifoInv q F s -> FifoInv q F (finish_order s c q' order).
+Lemma FifoInv_finish c q' order : forall s, FifoInv s -> FifoInv (finish_order s c q' order).
 Proof.
   induction order as [|i r IH]; intros s H; simpl; [exact H|].
   destruct (take_first _ (processing s)) as [[h p']|]; [|apply IH; exact H].
   apply IH, FifoInv_put_back. eapply FifoInv_state; [| |exact H]; reflexivity.
 Qed.
 
-Lemma FifoInv_put q F s m now : FifoInv q F s -> FifoInv q F (put s m now).
+Lemma FifoInv_put s m now : FifoInv s -> FifoInv (put s m now).
 Proof.
   intros H. unfold put. destruct (wait_until (m_params m) now); [eapply FifoInv_state; [| |exact H]; reflexivity | apply FifoInv_append; exact H].
 Qed.
 
-Theorem FifoInv_step q F s o : FifoInv q F s -> fifo_ok q F o -> FifoInv q F (fst (step s o)).
+Theorem FifoInv_step s o : FifoInv s -> FifoInv (fst (step s o)).
 Proof.
-  intros H Hok. destruct o as [m now | i q0 | i q0 | i q0 | i q0 m' now | c q0 ct topics now upd | c q0 order]; simpl.
+  intros H. destruct o as [m now | i q0 | i q0 | i q0 | i q0 m' now | c q0 ct topics now upd | c q0 order]; simpl.
   - apply FifoInv_put; exact H.
   - destruct (take_first _ (processing s)) as [[h p']|]; [eapply FifoInv_state; [| |exact H]; reflexivity | exact H].
   - destruct (take_first _ (processing s)) as [[h p']|]; [eapply FifoInv_state; [| |exact H]; reflexivity | exact H].
@@ -324,69 +325,57 @@ Proof.
     apply FifoInv_put_back. eapply FifoInv_state; [| |exact H]; reflexivity.
   - destruct (take_first _ (processing s)) as [[h p']|]; cbn [fst]; apply FifoInv_put; [|exact H].
     eapply FifoInv_state; [| |exact H]; reflexivity.
-  - apply (FifoInv_pre_poll q F s q0 now upd) in H. rewrite poll_unfold. cbv zeta.
+  - apply (FifoInv_pre_poll s q0 now upd) in H. rewrite poll_unfold. cbv zeta.
     set (s1 := pre_poll s q0 now upd) in *. clearbody s1. destruct H as [Hs Hb]. destruct ct.
-    + destruct (take_first (in_queue q0) (simple s1)) as [[x rest]|] eqn:E; [|split; assumption].
-      destruct (take_first_bound _ _ _ _ _ E Hb) as [Hbr Hbx].
-      pose proof (sorted_remove m_stamp _ (matchP q F) _ _ _ E Hs) as Hsr.
-      destruct (msg_overdue x now); [|destruct (negb (topic_ok topics x)) eqn:Et]; unfold FifoInv, set_processing; cbn [fst simple stamp].
-      * split; assumption.
-      * split; [|apply Forall_app; split; [exact Hbr | constructor; [exact Hbx | constructor]]].
-        rewrite filter_app. cbn [filter].
-        assert (Hx : matchP q F x = false).
-        { unfold matchP. destruct (in_queue q x) eqn:Eq; [|reflexivity]. simpl.
-          assert (q0 = q). { pose proof (take_first_sat _ _ _ _ E) as Hq0. unfold in_queue in *. lia. }
-          simpl in Hok. rewrite (Hok H) in Et. destruct (topic_ok F x); [discriminate|reflexivity]. }
-        rewrite Hx, app_nil_r. exact Hsr.
-      * split; assumption.
+    + pose proof (scan_sorted q0 topics now _ Hs) as Hss.
+      destruct (scan q0 topics now (simple s1)) as [[d f] k] eqn:E. cbn [snd] in Hss.
+      destruct (scan_Forall _ _ _ _ _ _ _ _ E Hb) as (_ & Hk & _).
+      destruct f as [x|]; split; cbn [fst simple stamp]; assumption.
     + destruct (min_key q0 (delayed s1)); [destruct (d_pop q0 _ _) as [[x d']|]|]; split; assumption.
     + destruct (take_first (in_queue q0) (dead s1)) as [[x rest]|]; split; assumption.
   - apply FifoInv_finish. exact H.
 Qed.
 
-Fixpoint fifo_ok_run (q : Z) (F : list Z) (h : list op) : Prop :=
-  match h with [] => True | o :: r => fifo_ok q F o /\ fifo_ok_run q F r end.
+Theorem FifoInv_run h : forall s, FifoInv s -> FifoInv (run s h).
+Proof. induction h as [|o r IH]; intros s H; simpl; [exact H | apply IH, FifoInv_step, H]. Qed.
 
-Theorem FifoInv_run q F h : forall s, FifoInv q F s -> fifo_ok_run q F h -> FifoInv q F (run s h).
-Proof.
-  induction h as [|o r IH]; intros s H Hok; simpl; [exact H|]. destruct Hok as [Ho Hr].
-  apply IH; [apply FifoInv_step; assumption | exact Hr].
-Qed.
-
-Lemma FifoInv_s0 q F : FifoInv q F s0.
+Lemma FifoInv_s0 : FifoInv s0.
 Proof. split; simpl; auto. Qed.
 
-(* the first message of the queue is the first matching one whenever it matches *)
-Lemma take_first_filter q F l x rest :
-  take_first (in_queue q) l = Some (x, rest) -> matchP q F x = true ->
-  filter (matchP q F) l = x :: filter (matchP q F) rest.
-Proof.
-  revert x rest. induction l as [|z l IH]; simpl; intros x rest H Hx; [discriminate|].
-  destruct (in_queue q z) eqn:Ez.
-  - inversion H; subst. rewrite Hx. reflexivity.
-  - destruct (take_first (in_queue q) l) as [[w r']|]; [|discriminate]. inversion H; subst.
-    unfold matchP at 1. rewrite Ez. simpl. unfold matchP at 2. rewrite Ez. simpl. apply IH; auto.
-Qed.
+Corollary FifoInv_all h : FifoInv (run s0 h).
+Proof. apply FifoInv_run, FifoInv_s0. Qed.
 
-(* FIFO: what is delivered arrived in the waiting list before every other matching message still waiting *)
+(* FIFO: what is delivered arrived in the waiting list before every other message of the consumer's queue and topics
+   still waiting - whoever else polls the queue with whatever filter *)
 Theorem fifo_delivery q F s c now upd s' m :
-  FifoInv q F s -> poll s c q Normal F now upd = (s', PDelivered m) ->
+  FifoInv s -> poll s c q Normal F now upd = (s', PDelivered m) ->
   Forall (fun m' => matchP q F m' = true -> m_stamp m < m_stamp m') (simple s').
 Proof.
-  intros H Hp. apply (FifoInv_pre_poll q F s q now upd) in H. rewrite poll_unfold in Hp. cbv zeta in Hp.
+  intros H Hp. apply (FifoInv_pre_poll s q now upd) in H. rewrite poll_unfold in Hp. cbv zeta in Hp.
   set (s1 := pre_poll s q now upd) in *. clearbody s1. destruct H as [Hs _].
-  destruct (take_first (in_queue q) (simple s1)) as [[x rest]|] eqn:E; [|discriminate].
-  destruct (msg_overdue x now); [discriminate|]. destruct (topic_ok F x) eqn:Et; [|discriminate]. cbn [negb] in Hp.
-  injection Hp as Hs' Hm. subst x s'. unfold set_processing. cbn [simple].
-  assert (Hx : matchP q F m = true) by (unfold matchP; rewrite (take_first_sat _ _ _ _ E), Et; reflexivity).
-  rewrite (take_first_filter q F _ _ _ E Hx) in Hs. cbn [map sorted] in Hs. destruct Hs as [Hlt _].
-  rewrite Forall_map in Hlt. rewrite Forall_forall in *. intros m' Hin Hm'. apply Hlt. apply filter_In. auto.
+  destruct (scan q F now (simple s1)) as [[d f] k] eqn:E. destruct f as [x|]; [|discriminate].
+  injection Hp as Hs' Hm. subst x s'. cbn [simple]. eapply scan_fifo; eauto.
 Qed.
 
 Corollary fifo_delivery_reachable q F h c now upd s' m :
-  fifo_ok_run q F h -> poll (run s0 h) c q Normal F now upd = (s', PDelivered m) ->
+  poll (run s0 h) c q Normal F now upd = (s', PDelivered m) ->
   Forall (fun m' => matchP q F m' = true -> m_stamp m < m_stamp m') (simple s').
-Proof. intros Hok. apply fifo_delivery. apply FifoInv_run; [apply FifoInv_s0 | exact Hok]. Qed.
+Proof. apply fifo_delivery. apply FifoInv_run, FifoInv_s0. Qed.
+
+(* no starvation by later arrivals: the delivered message is the OLDEST live message of the consumer's queue and topics *)
+Theorem fifo_oldest_first q F s c now upd s' m :
+  FifoInv s -> poll s c q Normal F now upd = (s', PDelivered m) ->
+  forall m', In m' (simple (pre_poll s q now upd)) -> hit q F now m' = true -> m_stamp m <= m_stamp m'.
+Proof.
+  intros H Hp m' Hin Hh. pose proof (foreign_never_blocks s c q F now upd) as Hf. rewrite Hp in Hf. cbn [snd] in Hf.
+  apply (FifoInv_pre_poll s q now upd) in H. destruct H as [Hs _].
+  set (l := simple (pre_poll s q now upd)) in *. clearbody l.
+  destruct (find (hit q F now) l) as [x|] eqn:E; [|discriminate]. injection Hf as ->.
+  revert Hs Hin E. induction l as [|y r IH]; cbn [find map sorted]; [intros _ []|intros [Hy Hr] Hin E].
+  destruct (hit q F now y) eqn:Ey.
+  - injection E as ->. destruct Hin as [->|Hin]; [lia|]. rewrite Forall_map, Forall_forall in Hy. specialize (Hy _ Hin). lia.
+  - destruct Hin as [->|Hin]; [congruence|]. apply IH; assumption.
+Qed.
 
 (* arrival stamps follow the order of enqueue / return *)
 Theorem stamps_increase s m : stamp (append_simple s m) = stamp s + 1 /\
